@@ -625,6 +625,19 @@ def ob_function_forms(Ne, nPg, dim):
         if isinstance(got, FeArray) != keeps:
             raise Refuted(f"np.linalg.{what} on a vector field (Ne={Ne}, nPg={nPg}, dim={dim}) returns {type(got).__name__} of shape {np.shape(got)}: the reduction "
                           f"{'keeps' if keeps else 'consumes'} the (Ne, nPg) axes", cex=dict(Ne=Ne, nPg=nPg, dim=dim, call=what), signature="function:norm:type", replay=dict(confirmed=True))
+    # reductions that are not ndarray methods: typed by the axes they consume, never by a coincidence of extents
+    M = fld(dim, dim)
+    red = [("np.quantile(M, 0.5, axis=0)", lambda: np.quantile(M, 0.5, axis=0), False), ("np.quantile(M, 0.5, axis=-1)", lambda: np.quantile(M, 0.5, axis=-1), True),
+           ("np.percentile(M, 50, axis=1)", lambda: np.percentile(M, 50, axis=1), False), ("np.percentile(M, 50, 2)", lambda: np.percentile(M, 50, 2), True),
+           ("np.nanquantile(M, 0.5, axis=0)", lambda: np.nanquantile(M, 0.5, axis=0), False),
+           ("np.trace(M)", lambda: np.trace(M), False), ("np.trace(M, axis1=2, axis2=3)", lambda: np.trace(M, axis1=2, axis2=3), True),
+           ("np.take(M, 0, axis=0)", lambda: np.take(M, 0, axis=0), False), ("np.cumsum(M, axis=-1)", lambda: np.cumsum(M, axis=-1), True)]
+    for what, f, keeps in red:
+        got = f()
+        n += 1
+        if isinstance(got, FeArray) != keeps:
+            raise Refuted(f"{what} on a matrix field (Ne={Ne}, nPg={nPg}, dim={dim}) returns {type(got).__name__} of shape {np.shape(got)}: the operation "
+                          f"{'keeps' if keeps else 'consumes / works along'} the (Ne, nPg) axes", cex=dict(Ne=Ne, nPg=nPg, dim=dim, call=what), signature="function:reducer:type", replay=dict(confirmed=True))
     return Verdict(DISCHARGED, backend="native vs per-point einsum", sub=n)
 
 
